@@ -49,8 +49,8 @@ func ExtractInstanceTags(m []byte) (ours, theirs uint32, ok bool) {
 			return 0, 0, false
 		}
 
-		_, senderInstanceTag, _ := ExtractWord(msg[messageHeaderPrefix:])
-		_, receiverInstanceTag, _ := ExtractWord(msg)
+		rest, senderInstanceTag, _ := ExtractWord(msg[messageHeaderPrefix:])
+		_, receiverInstanceTag, _ := ExtractWord(rest)
 
 		return receiverInstanceTag, senderInstanceTag, true
 	} else if bytes.HasPrefix(m, []byte("?OTR|")) {
